@@ -97,6 +97,8 @@ struct CompositeBase
         }
         else if (op.f == "create_root") { m.c.push_back({true, -1}); ++m.names; }
         else if (op.f == "create_sub") { m.c.push_back({true, (int)op.i[0]}); ++m.names; }
+        else if (op.f == "create_root_after") { m.c.push_back({true, -1}); ++m.names; }
+        else if (op.f == "create_sub_after") { m.c.push_back({true, (int)op.i[0]}); ++m.names; }
         else if (op.f == "set_name") ++m.names;
         else if (op.f == "set_parent") m.c[op.i[0]].parent = (int)op.i[1];
         else if (op.f == "remove_crate")
